@@ -122,6 +122,7 @@ func TestE2E(t *testing.T) {
 				if rapid.IntRange(0, 3).Draw(t, "clear") == 0 {
 					st.Payload = ""
 				}
+				st.Dup = rapid.IntRange(0, 3).Draw(t, "dup") == 0
 				c.Steps = append(c.Steps, st)
 			case x < 6:
 				payload++
